@@ -36,6 +36,15 @@ def run(chk):
     if not r.ok:
         raise vlib.ToolError("MC_StripProd(str) failed (%s)" % r.violated)
     chk.add_tlc(r, "S_text_pieces_on_character_boundaries")
+    # S (thorough only): the Params bookkeeping at its REAL size (32) by Apalache: IndInv is inductive (all states, not only
+    # reachable ones within a depth) and implies index safety of push/extend and of the iterator.  Runs beside the exploration.
+    apa = None
+    if not quick:
+        import concurrent.futures
+        pool = concurrent.futures.ThreadPoolExecutor(3)
+        apa = [("Init=>IndInv", pool.submit(vlib.apalache_check, "spec/apalache/ParamsInd.tla", "p0", "Init", "IndInv", 0, 900)),
+               ("IndInv=>Safe", pool.submit(vlib.apalache_check, "spec/apalache/ParamsInd.tla", "p1", "IndInit", "Safe", 0, 1800)),
+               ("IndInv/\\Next=>IndInv'", pool.submit(vlib.apalache_check, "spec/apalache/ParamsInd.tla", "p2", "IndInit", "IndInv", 1, 5400))]
     shards = 8 if quick else 32
     per = 250 if quick else 4000
     jobs = []
@@ -72,6 +81,17 @@ def run(chk):
     chk.traces += tot["inputs"]
     chk.part("exploration", inputs=tot["inputs"], calls=tot["calls"], distinct_inputs=tot["distinct"])
     chk.sample({"event": json.loads(open(jobs[0]).readline())})
+    if apa:
+        res = {}
+        for what, fut in apa:
+            st, dt, tail = fut.result()
+            res[what] = "%s in %ds" % (st, dt)
+            if st == "error":
+                raise vlib.ToolError("Apalache refuted %s on spec/apalache/ParamsInd.tla (a specification error, not a code violation):\n%s" % (what, tail))
+            if st == "tool":
+                raise vlib.ToolError("apalache-mc failed on %s:\n%s" % (what, tail))
+        # a timeout leaves the obligation undecided; it is reported in the evidence, the bounded TLC invariants above still stand
+        chk.part("S_params_inductive_invariant_apalache", size=32, **{k.replace("=>", " implies ").replace("/\\", " and ").replace("'", " primed"): v for k, v in res.items()})
     chk.exhaustive = False
 
 
